@@ -15,6 +15,15 @@ pub mod zz_must_fail {
     pub proof fn zz_must_fail_fmc<S>(s: Seq<S>)
         ensures fmc_spec(s, utype_opt_of::<S>()) is Ok,
     { lemma_fmc_utype::<S>(s); }
+    pub proof fn zz_must_fail_ext_roundtrip(tv: TView, kt: Seq<tinystr::TinyAsciiStr<4>>, uv: UView, ku: Seq<tinystr::TinyAsciiStr<4>>, xv: Seq<Seq<u8>>)
+        requires t_view_ok(tv), is_sorted_keys(kt, tv.fields), u_wf(uv), is_sorted_keys(ku, uv.kw), x_view_wf(xv),
+        ensures ext_parse(t_toks(tv, kt) + (u_toks(uv, ku) + x_toks(xv)), ev0()) is Err,
+    { lemma_ext_roundtrip(tv, kt, uv, ku, xv); }
+    pub proof fn zz_must_fail_locale_roundtrip(l: crate::Locale, l2: crate::Locale)
+        requires crate::locale_wf(l), crate::keys_listable(l),
+            !crate::parser::locale_err(subtags_of(crate::locale_ser(l))) ==> crate::parser::locale_expected(subtags_of(crate::locale_ser(l)), l2),
+        ensures l2.id.view().variants.len() == 0,
+    { crate::lemma_locale_roundtrip(l, l2); }
     pub fn zz_must_fail_locale(v: &[u8]) {
         let r = crate::Locale::from_bytes(v);
         assert(r is Ok);
